@@ -120,7 +120,13 @@ fn value_from_view(view: &SafeTensorView) -> io::Result<Value> {
     let bytes = view.data();
     let value = dispatch_data_type!(data_type, T => {
         let data = <T as SafeElement>::from_le_bytes(bytes);
-        Value::from(Tensor::<T>::from_data(shape, data))
+        let tensor = Tensor::<T>::try_from_data(shape, data).map_err(|err| {
+            io::Error::new(
+                io::ErrorKind::InvalidData,
+                format!("invalid safetensors tensor shape: {err}"),
+            )
+        })?;
+        Value::from(tensor)
     });
     Ok(value)
 }
